@@ -15,7 +15,7 @@ prefix = args[0] if args else ''
 REGRESS = {'c6da5e0':'C02','ed37301':'C03','bc2c2ae':'C04','ca9c2c9':'C07','3f41bb6':'C06','bcedf17':'C08','70830e7':'C09','69c6f4d':'C09','5338602':'C09','296d4f4':'C11',
            '7e5762b':'C12','4f87c3f':'C14','065f673':'C15','e70172f':'C15','eee16f5':'C17','43726c7':'C17','493b804':'C19','7c4d93a':'C15','677d4ab':'C06'}
 # changes whose defect is a concurrency defect filed under a sequential property: judged by the neighbouring check
-OTHER = {'C02-r2a':'C04','C11-r2b':'C17','C12-r2a':'C17','C02-r4b':'C03','C08-r4b':'C11','C01-r5a':'C04','C04-r5b':'C13','C04-r8b':'C17','C06-r8b':'C17','C08-r8b':'C11','C17-r8b':'C11'}
+OTHER = {'C02-r2a':'C04','C11-r2b':'C17','C12-r2a':'C17','C02-r4b':'C03','C08-r4b':'C11','C01-r5a':'C04','C04-r5b':'C13','C04-r8b':'C17','C06-r8b':'C17','C08-r8b':'C11'}
 jobs = queue.Queue()
 n = 0
 for d in sorted(glob.glob('seeded/C*-*')):
